@@ -227,8 +227,10 @@ def operational(n=3, config=None, master=0, fsm='OPERATION', local=0):
                                            instance_states={j: S.RUNNING for j in ids})
     adapter.plant_fsm_state(core, F[fsm])
     core.state_modes.evaluate_stability()
-    core.rpc_handler.out.clear()
     core._round = 0
+    # one full tick period so that every tick counter and reception reference is aligned
+    cluster_round(core)
+    core.rpc_handler.out.clear()
     return core
 
 
